@@ -22,6 +22,7 @@ fn setup(ctx: &mut Ctx) {
     ctx.floor("xnum:shnum-via-shdr0", 8);
     ctx.floor("xnum:phnum-via-shdr0", 8);
     ctx.floor("xnum:shstrndx-via-shdr0", 4);
+    ctx.floor("xnum:count>=0x10000", 8);
     ctx.floor("table-touching-eof:opens", 20);
     ctx.floor("table-one-byte-short:fails", 20);
     ctx.floor("shdrs-absent", 50);
@@ -34,7 +35,7 @@ fn setup(ctx: &mut Ctx) {
     }
 }
 
-const BIG_CASES: u64 = 10 * 4;
+const BIG_CASES: u64 = 13 * 4;
 
 fn strata(t: Tier) -> Vec<Stratum> {
     vec![
@@ -79,6 +80,9 @@ pub fn judge_open(ctx: &mut Ctx, data: &[u8], what: &str) -> bool {
             }
             if r.xnum_sh {
                 ctx.count("xnum:shnum-via-shdr0");
+            }
+            if r.shnum() >= 0x10000 || r.phnum() >= 0x10000 {
+                ctx.count("xnum:count>=0x10000");
             }
             if r.xnum_ph {
                 ctx.count("xnum:phnum-via-shdr0");
@@ -254,9 +258,16 @@ fn big_spec(enc: Enc, which: u64, rng: &mut crate::rng::Rng) -> ObjSpec {
                 spec.add(f);
             }
         }
-        _ => {
+        9 => {
             spec.filler_sections = 0xff10;
             spec.filler_segments = 0xffff + 5;
+        }
+        // counts that no longer fit in 16 bits
+        10 => spec.filler_sections = 0x10000 - 3,
+        11 => spec.filler_sections = 0x10001 - 3,
+        _ => {
+            spec.filler_sections = 0x10400;
+            spec.filler_segments = 0x10001;
         }
     }
     spec.order = [[Part::Phdrs, Part::Bodies, Part::Shdrs], [Part::Shdrs, Part::Bodies, Part::Phdrs], [Part::Bodies, Part::Shdrs, Part::Phdrs]][(which % 3) as usize];
